@@ -1,7 +1,8 @@
 ---- MODULE Selector ----
 (* C13 - endpoint selection.                                                                     *)
 (*                                                                                               *)
-(* A selector holds a host-deduplicated SEQUENCE of endpoints [h |-> host, w |-> weight].        *)
+(* A selector holds a host-deduplicated SEQUENCE of endpoints [h |-> host, w |-> weight,         *)
+(* t |-> weight type] (t = 1: static weight, endpoint.EStaticWeight; t = 0: none, endpoint.ELoop). *)
 (* Hosts are integers; their numeric order is the order of the code's Endpoint.String() (the     *)
 (* harness names host k "10.0.0.k", 1 <= k <= 9, same proto/timeout).                            *)
 (* Operations: Refresh(list), Add(ep), Remove(ep) (identified by host only: the weight of the    *)
@@ -9,8 +10,12 @@
 (* Strategies: "rr" (round robin: cursor chosen nondeterministically at every rebuild, then      *)
 (* strict rotation), "random", "modhash", "conhash" (the ring itself is module HashRing/C14:     *)
 (* here a consistent-hash selection is any ELIGIBLE member).                                     *)
-(* Static weights (wt = TRUE): rr/random/modhash walk the weighted cycle StaticWeightList; the   *)
-(* weighted consistent hash gives an endpoint of weight <= 0 no ring points (not eligible).      *)
+(* Static weights (wt = TRUE): rr/random/modhash walk the weighted cycle StaticWeightList -- but  *)
+(* only while EVERY member carries a static weight (t = 1); a set with a member of another       *)
+(* weight type has no static weights to be proportional to, and the strategies behave as without *)
+(* weights (strict rotation / h mod N / any member).  The weighted consistent hash gives an      *)
+(* endpoint of weight <= 0 no ring points (not eligible); every positive weight, however small,  *)
+(* is eligible; the weight type plays no part there.                                             *)
 (* For degenerate weights (some weight <= 0) the statement only demands totality and membership, *)
 (* so the specification allows any member there.                                                 *)
 EXTENDS Integers, Sequences, FiniteSets
@@ -70,12 +75,17 @@ Dedup(list) == DedupInto(<<>>, list)
 WeightsOf(m) == [i \in 1..Len(m) |-> m[i].w]
 OrdOf(m) == [i \in 1..Len(m) |-> m[i].h]
 Degenerate(m) == \E i \in 1..Len(m) : m[i].w <= 0
+StaticT == 1
+LoopT == 0
+AllStatic(m) == \A i \in 1..Len(m) : m[i].t = StaticT
 
 Strategies == {"rr", "random", "modhash", "conhash"}
+\* static weights apply: weighted mode and every member has a static weight
+WeightsApply(s, wt, m) == wt /\ s \in {"rr", "random", "modhash"} /\ m # <<>> /\ AllStatic(m)
 \* the weighted cycle is in force
-UsesCycle(s, wt, m) == wt /\ s \in {"rr", "random", "modhash"} /\ m # <<>> /\ ~Degenerate(m)
+UsesCycle(s, wt, m) == WeightsApply(s, wt, m) /\ ~Degenerate(m)
 \* weights are in force but degenerate: only totality and membership are specified
-Unspecified(s, wt, m) == wt /\ s \in {"rr", "random", "modhash"} /\ m # <<>> /\ Degenerate(m)
+Unspecified(s, wt, m) == WeightsApply(s, wt, m) /\ Degenerate(m)
 CycleOf(s, wt, m) == IF UsesCycle(s, wt, m) THEN StaticWeightList(WeightsOf(m), OrdOf(m)) ELSE <<>>
 EligibleIdx(s, wt, m) == IF s = "conhash" /\ wt THEN {i \in 1..Len(m) : m[i].w > 0} ELSE 1..Len(m)
 EligibleHosts(s, wt, m) == {m[i].h : i \in EligibleIdx(s, wt, m)}
@@ -95,6 +105,7 @@ SelectSet(s, wt, m, cyc, cur, code) ==
 \* ------------------------------------------------------------------ state machine
 CONSTANTS Hosts,        \* universe of hosts (positive integers)
           Weights,      \* universe of weights (integers, may contain 0 and negatives)
+          Types,        \* universe of weight types (subset of {LoopT, StaticT})
           StratSet,     \* strategies explored
           WtSet,        \* subset of BOOLEAN: static-weight mode off/on
           RefreshLists, \* lists a Refresh may install
@@ -106,7 +117,7 @@ VARIABLES strat, wtd,   \* fixed at Init
           recent,       \* rr: selections since the last rebuild (at most one period kept)
           last          \* result of the last Select since the last update, or -1
 vars == <<strat, wtd, members, cyc, cur, recent, last>>
-Eps == [h : Hosts, w : Weights]
+Eps == [h : Hosts, w : Weights, t : Types]
 NoSel == 0 - 1
 
 Init == /\ strat \in StratSet /\ wtd \in WtSet
@@ -145,8 +156,9 @@ SelectsMember == last \notin {0, NoSel} => last \in HostsOf(members)
 ErrorIffNoneEligible == last # NoSel => ((last = 0) <=> (EligibleIdx(strat, wtd, members) = {}))
 NoneEligibleMeans == (EligibleIdx(strat, wtd, members) = {}) <=>
                      (members = <<>> \/ (strat = "conhash" /\ wtd /\ \A i \in 1..Len(members) : members[i].w <= 0))
-\* round robin without weights: any N consecutive selections over an unchanged N-set are a permutation
-Rotation == (strat = "rr" /\ ~wtd /\ members # <<>> /\ Len(recent) = Len(members)) =>
+\* round robin where no static weights apply (weights off, or some member is not of the static type):
+\* any N consecutive selections over an unchanged N-set are a permutation
+Rotation == (strat = "rr" /\ ~WeightsApply(strat, wtd, members) /\ members # <<>> /\ Len(recent) = Len(members)) =>
               (\A h \in HostsOf(members) : CountIn(recent, h) = 1)
 \* round robin with static weights W_i > 0: a full cycle holds endpoint i exactly FormulaCount(W, i) times
 WeightedCycle == (strat = "rr" /\ UsesCycle(strat, wtd, members) /\ Len(recent) = Len(cyc)) =>
